@@ -45,6 +45,9 @@ func runProperty(prop *Property, p *Prog, a *Anchors) (obs []*Obligation) {
 	return obs
 }
 
+// chaRules: the forbid (may-reach safety) rules repeated on the CHA call graph in the thorough tier.
+var chaRules = map[string]bool{"C01.2": true, "C02.1": true, "C03.3": true, "C06.5": true, "C11.4": true, "C13.3": true, "C18.1": true, "C18.2": true}
+
 func firstLines(s string, n int) string {
 	ls := strings.Split(s, "\n")
 	if len(ls) > n {
@@ -131,6 +134,18 @@ func CheckMain(args []string) int {
 			return fatal("anchors "+cfg.String(), fmt.Errorf("ANCHOR-UNRESOLVED: %s", strings.Join(a.Unresolved, "; ")))
 		}
 		obs := runProperty(prop, p, a)
+		if cfg.UseCHA {
+			// CHA is a superset call graph; it is used only to re-run the may-reach safety (forbid) rules, so that a
+			// VTA imprecision cannot hide an edge. Other rules are not meaningful on CHA (every implementation of every
+			// interface, every function of a matching signature becomes a callee).
+			var keep []*Obligation
+			for _, o := range obs {
+				if chaRules[o.Rule] {
+					keep = append(keep, o)
+				}
+			}
+			obs = keep
+		}
 		for _, o := range obs {
 			if prev, ok := seenOb[o.Key]; ok {
 				// keep the worst status across configurations
